@@ -433,7 +433,9 @@ Plan plan_C07(Rng& r, const std::string&) {
 		for (int e = 0; e < ep; ++e) {
 			TA A, B;
 			if (r.chance(1, 4)) A = r.chance(1, 2) ? gen::wide_pair_smaller(r, B) : gen::repeat_pair_smaller(r, B);      // child positions with several macro-states
+			else if (r.chance(1, 5)) gen::monadic_pair(r, A, B);
 			else gen::gen_incl_pair(r, pool, r.range(1, 5), false, A, B);
+			if (r.chance(1, 2)) gen::permute_syms(r, A, B);      // symbol codes (= registration order = order of names in the Ops line) decide the order in which the MTBDD traversals visit the rules
 			// the same pair in both encodings
 			int abu = g.load(A, true), bbu = g.load(B, true), atd = g.load(A, false), btd = g.load(B, false);
 			if (r.chance(1, 5)) g.out.push_back(cli_step(r, c, 1 + long(r.below(2)), 3, mdl::to_lit(A), mdl::to_lit(B)));      // vata -r bdd-td|bdd-bu incl
